@@ -75,6 +75,7 @@ type wFunc struct {
 	consts      map[int64]bool
 	usesRecvVer bool
 	setsRecvVer bool
+	assignsRecvVer bool // decode: recv.Version = version somewhere
 	info        *types.Info
 	fset        *token.FileSet
 	lenSinks    map[types.Object]bool // decode: variables holding a length token
@@ -462,6 +463,7 @@ func (w *wFunc) stmt(s ast.Stmt) (items []*wNode, stop bool) {
 			if sel, ok := x.Lhs[0].(*ast.SelectorExpr); ok && sel.Sel.Name == "Version" {
 				if id, ok := sel.X.(*ast.Ident); ok && w.recvVer && w.recv != nil && w.info.Uses[id] == w.recv {
 					if w.verParam != nil && w.isVersionExpr(x.Rhs[0]) && !w.mentionsRecv(x.Rhs[0]) {
+						w.assignsRecvVer = true
 						if !w.usesRecvVer {
 							w.setsRecvVer = true
 						}
@@ -1540,6 +1542,15 @@ func (p *Prog) wireCheck(pr *wirePair) *wireVerdict {
 	}
 	v.RegionsSMT = pr.regionsQuery(v.Points)
 	v.FieldCompared, v.FieldSkipped = pr.fieldCompared, pr.fieldSkipped
+	// the version is part of the value: an encoder that takes it from the receiver's Version field needs a decoder
+	// that stores the version it was called with into that field
+	if pr.enc.usesRecvVer && pr.enc.verParam == nil && pr.dec.verParam != nil {
+		pr.fieldCompared++
+		v.FieldCompared++
+		if !pr.dec.assignsRecvVer {
+			pr.fieldIssues = append(pr.fieldIssues, "version: "+pr.Type+".encode takes the protocol version from $.Version ("+p.posShort(pr.enc.fi.Body.Pos())+"), which "+pr.Type+".decode never sets from its version argument ("+p.posShort(pr.dec.fi.Body.Pos())+")")
+		}
+	}
 	seen := map[string]bool{}
 	for _, is := range pr.fieldIssues {
 		// the same pair of statements is met once per version: report it once
